@@ -150,7 +150,7 @@ fn s_params(t: &mut Tape, ctx: &mut Ctx) -> Result<(), Failure> {
 }
 
 pub fn streams() -> Vec<Stream> {
-    vec![Stream { name: "params", kind: Kind::Tape { cases: |t: Tier| t.pick(4_000, 100_000), max_len: 420, f: s_params }, isolate: false }]
+    vec![Stream { name: "params", kind: Kind::Tape { cases: |t: Tier| t.pick(8_000, 200_000), max_len: 420, f: s_params }, isolate: false }]
 }
 
 pub fn def() -> PropertyDef {
